@@ -22,7 +22,7 @@ ASSUMPTIONS = [
 ]
 CONFIG = {
     "quick": {"examples": 256, "shards": 16, "shrink_s": 40, "time_budget_s": 270},
-    "thorough": {"examples": 5000, "shards": 16, "shrink_s": 200, "time_budget_s": 1500},
+    "thorough": {"examples": 14000, "shards": 16, "shrink_s": 200, "time_budget_s": 1500},
 }
 is_risky = layergen.is_risky
 
